@@ -118,33 +118,46 @@ func (c *Cluster) handleListOffsets(creq *clientReq) (kmsg.Response, error) {
 					sp.LeaderEpoch = m.epoch
 				}
 			default:
-				// Two-level binary search for the first batch whose maxTimestamp >= requested timestamp.
-				segIdx, _, meta := pd.findBatchMeta(rp.Timestamp, func(m *batchMeta) int64 { return m.maxTimestamp })
-				if meta == nil {
-					sp.Offset = -1
-				} else {
-					sp.Offset = meta.firstOffset
-					sp.Timestamp = meta.firstTimestamp
-					sp.LeaderEpoch = meta.epoch
-					// Read the full batch to iterate records for precise timestamp
+				// The first record, in offset order, at or above the log start
+				// (and below the last fetchable offset) whose timestamp is >= the
+				// requested timestamp. Batch max timestamps are not sorted (client
+				// CreateTime, broker-stamped transaction markers), so the batches
+				// are scanned in order rather than binary searched.
+				limit := pd.highWatermark
+				if req.IsolationLevel == 1 {
+					limit = pd.lastStableOffset
+				}
+				sp.Offset = -1
+				var rerr error
+				pd.eachBatchMeta(func(segIdx, _ int, meta *batchMeta) bool {
+					if meta.firstOffset >= limit {
+						return false
+					}
+					if meta.maxTimestamp < rp.Timestamp || meta.firstOffset+int64(meta.lastOffsetDelta) < pd.logStartOffset {
+						return true
+					}
 					batch, err := c.readBatchFull(pd, segIdx, meta)
 					if err != nil {
-						sp.ErrorCode = kerr.CorruptMessage.Code
-						continue
+						rerr = err
+						return false
 					}
-					err = forEachBatchRecord(batch.RecordBatch, func(rec kmsg.Record) error {
+					found := false
+					rerr = forEachBatchRecord(batch.RecordBatch, func(rec kmsg.Record) error {
 						timestamp := batch.FirstTimestamp + rec.TimestampDelta64
 						offset := batch.FirstOffset + int64(rec.OffsetDelta)
-						if timestamp <= rp.Timestamp {
+						if !found && timestamp >= rp.Timestamp && offset >= pd.logStartOffset && offset < limit {
+							found = true
 							sp.Offset = offset
 							sp.Timestamp = timestamp
+							sp.LeaderEpoch = meta.epoch
 						}
 						return nil
 					})
-					if err != nil {
-						sp.ErrorCode = kerr.CorruptMessage.Code
-						continue
-					}
+					return rerr == nil && !found
+				})
+				if rerr != nil {
+					sp.ErrorCode = kerr.CorruptMessage.Code
+					continue
 				}
 			}
 		}
